@@ -205,10 +205,6 @@ def run_property(prop, tier='quick', seed=0):
         print('CHECKER-ERROR property={} solver disagreement: {}'.format(
             prop, [r['name'] for r in results if r.get('disagreement')]))
         rc = 3
-    if vac:
-        print('CHECKER-ERROR property={} vacuous precondition/path: {}'.format(
-            prop, [c['name'] for c in vac]))
-        rc = 3
     # expected-refuted canaries
     meta = {o.name: o.meta for o in obs}
     failed = []
@@ -226,6 +222,16 @@ def run_property(prop, tier='quick', seed=0):
             continue
         if r['verdict'] != 'discharged':
             failed.append(r)
+    # an obligation is assumed once it has been recorded; after one that does
+    # not hold the rest of its path is vacuous by construction: that is part
+    # of the reported violation, not a defect of the checker
+    vac = [c for c in vac if not any(
+        r['name'].startswith(c['name'].split('/cover/')[0] + '/')
+        for r in failed)]
+    if vac:
+        print('CHECKER-ERROR property={} vacuous precondition/path: {}'.format(
+            prop, [c['name'] for c in vac]))
+        rc = 3
     # bounded / runtime legs
     bounded = []
     if hasattr(mod, 'bounded'):
